@@ -5,7 +5,7 @@ import LinOp.C06.Model
   choose <n> <maxChol> <fast> <cache>
   kron <m> <n> <p> <q> <A> <B>          exact Kronecker product in the library's index order
   upper <n> <L>                         upper factor from the lower one
-  svd <n> <Q> <w>                       U;S;V of the base `_svd` from an eigendecomposition
+  svd|svdpos <n> <Q> <w>                U;S;V of the base `_svd` from an eigendecomposition (sign 0 = 0 | +1)
   kpadlo <asw|fix> <d> <lam,…>          predicted spectrum of R Rᵀ, constant-factor branch
   symm <lam,…>                          predicted inner spectrum, symmetrised branch -/
 open LinOp LinOp.C06 LinOp.Parse
@@ -48,6 +48,16 @@ def out {n m : Nat} (A : Mat Rat n m) : String := showMat A.toLists
 
 def ratSign (x : Rat) : Rat := if x > 0 then 1 else if x < 0 then -1 else 0
 def ratAbs (x : Rat) : Rat := if x < 0 then -x else x
+/-- sign with `sign 0 = +1` (the corrected `_svd`, notes/C06_fix_4.diff). -/
+def ratSignPos (x : Rat) : Rat := if x < 0 then -1 else 1
+
+def runSvd (sg : Rat → Rat) (n q w : String) : String :=
+  match n.toNat?, parseMat? q, parseRats? w with
+  | some n, some q, some w =>
+    let wa := w.toArray
+    let (u, s, v) := svdFromSymeig sg ratAbs (getM q n n) (fun i : Fin n => wa[i.1]!)
+    out u ++ " | " ++ showList showRat ((List.finRange n).map s) ++ " | " ++ out v
+  | _, _, _ => "bad-op"
 
 def run (line : String) : String :=
   match words line with
@@ -81,13 +91,8 @@ def run (line : String) : String :=
     match n.toNat?, parseMat? l with
     | some n, some l => out (upperFromLower (getM l n n))
     | _, _ => "bad-op"
-  | ["svd", n, q, w] =>
-    match n.toNat?, parseMat? q, parseRats? w with
-    | some n, some q, some w =>
-      let wa := w.toArray
-      let (u, s, v) := svdFromSymeig ratSign ratAbs (getM q n n) (fun i : Fin n => wa[i.1]!)
-      out u ++ " | " ++ showList showRat ((List.finRange n).map s) ++ " | " ++ out v
-    | _, _, _ => "bad-op"
+  | ["svd", n, q, w] => runSvd ratSign n q w
+  | ["svdpos", n, q, w] => runSvd ratSignPos n q w
   | ["kpadlo", which, d, lam] =>
     match parseRat? d, parseRats? lam with
     | some d, some lam =>
